@@ -175,11 +175,23 @@ impl Oracle for C08 {
             if o.erroneous() {
                 return vec![]; // C04's clause
             }
-            match compare_seqs(&pin, &prose(&o), "markup") {
+            let pout = prose(&o);
+            match compare_seqs(&pin, &pout, "markup") {
                 Some(mut f) => {
                     if f.clause == "structure-changed" {
                         // the set of markup nodes itself changed: C01's domain, not a prose edit
                         return vec![];
+                    }
+                    if f.clause == "text-changed" {
+                        // same tokens overall, but distributed differently over the markup nodes:
+                        // items were re-nested (a structure change, reported under its own clause)
+                        let flat = |v: &[Seq]| v.iter().flat_map(|s| s.tokens.iter().cloned()).collect::<Vec<_>>();
+                        let (mut a, mut b) = (flat(&pin), flat(&pout));
+                        a.sort();
+                        b.sort();
+                        if a == b {
+                            f.clause = "tokens-moved-between-markup-nodes".into();
+                        }
                     }
                     f.detail = format!("output {} :: {}", esc(out), f.detail);
                     vec![f]
